@@ -227,7 +227,13 @@ func (r *runner) write(b *cryptobyte.Builder, ids []int, depth int) {
 		case kBytes:
 			b.AddBytes(e.data)
 		case kInt64:
-			b.AddASN1Int64(e.i)
+			if e.marshal {
+				b.MarshalASN1(e.i)
+			} else {
+				b.AddASN1Int64(e.i)
+			}
+		case kMarshalErr:
+			b.MarshalASN1(make(chan int))
 		case kUint64:
 			b.AddASN1Uint64(e.u)
 		case kBigInt:
@@ -393,6 +399,15 @@ func (r *runner) opAt(ids []int, off int) string {
 		n := len(r.enc[i])
 		if off < pos+n {
 			e := r.e(i)
+			// one defect in the length handling shows up under every op that writes a length: name the octets, not the op
+			if e.lenLen > 0 && off-pos < e.lenLen {
+				return "a length prefix"
+			}
+			if e.elemTag >= 0 {
+				if _, content, _, ok := refTLV(r.enc[i]); ok && off-pos < n-len(content) {
+					return "the identifier/length octets of an ASN.1 element"
+				}
+			}
 			if e.container {
 				hdr := n - r.contentLen(i)
 				if off >= pos+hdr {
@@ -426,6 +441,10 @@ func (r *runner) runProgram() []*failure {
 		f.mode = "grow"
 		return append(fails, f)
 	}
+	// a Builder that is unexpectedly in error ignores the op that should panic: report the error, once
+	if res.panicCls != "" && pv == nil && err != nil {
+		return grow(&failure{sig: "Builder: unexpected error: " + ev.MsgClass(err.Error()), detail: err.Error()})
+	}
 	switch res.panicCls {
 	case "user":
 		if pv != any(thePanic) {
@@ -447,7 +466,7 @@ func (r *runner) runProgram() []*failure {
 	case wantErr == "" && err != nil:
 		f = &failure{sig: "Builder: unexpected error: " + ev.MsgClass(err.Error()), detail: err.Error()}
 	case wantErr != "" && res.errIs != nil && err != res.errIs:
-		f = &failure{sig: fmt.Sprintf("Builder: Bytes does not return the error value given by %s", r.e(errNode).class), detail: fmt.Sprintf("got %q want %q", err, res.errIs)}
+		f = &failure{sig: "Builder: Bytes does not return the error value handed to the Builder (SetError / AddValue / BuildError)", detail: fmt.Sprintf("error expected from %s: got %q want %q", r.e(errNode).class, err, res.errIs)}
 	}
 	if f != nil {
 		return grow(f)
@@ -472,8 +491,14 @@ func (r *runner) runProgram() []*failure {
 		for d < len(out) && d < len(ref) && out[d] == ref[d] {
 			d++
 		}
-		cls := "Unwrite"
-		if !res.cut {
+		// a difference caused by Unwrite shows up in the enclosing block's length: name Unwrite itself
+		cls := ""
+		for i := 0; i < r.sh.n; i++ {
+			if k := r.e(i).k; k == kUnwrite || k == kWriteUnwrite {
+				cls = "a program with Unwrite"
+			}
+		}
+		if cls == "" {
 			cls = r.opAt(r.sh.roots, d)
 		}
 		return grow(&failure{sig: "Builder: output differs from the reference encoding (first difference in " + cls + ")",
